@@ -251,7 +251,7 @@ Proof.
   { intros ops Hn. apply reachable_closed_run; [apply rc_init|apply no_restore_closed; exact Hn]. }
   unfold ex_closed. apply (reachable_closed_run ex_closed_ops (init_store false) (rc_init false)).
   unfold ex_closed_ops.
-  repeat (apply Forall_cons; [intros snap E; discriminate E|]).
-  apply Forall_cons; [intros snap E; injection E as <-; unfold ex_store; exact (H ex_ops eq_refl)|].
+  do 7 (apply Forall_cons; [intros snap E; discriminate E|]).
+  apply Forall_cons; [intros snap E; apply restore_inj in E; subst snap; unfold ex_store; exact (H ex_ops eq_refl)|].
   exact (no_restore_closed [OReplaceFailed 1 (Some 6)] eq_refl).
 Qed.
